@@ -858,7 +858,14 @@ fn rrt_vs_star(ctx: &Ctx, tier: Tier, seed: u64) -> Value {
                     match (&r1, &r2) {
                         (Res::Path(a), Res::Path(c)) => {
                             b.count("rrt_vs_star_both_paths", 1);
-                            if !bits_eq(a.last().unwrap(), c.last().unwrap()) {
+                            // "the same state" up to rounding: the two planners may evaluate
+                            // distance(a, b) with the arguments in either order, which moves a
+                            // steered node by an ulp or two
+                            let (ea, ec) = (a.last().unwrap(), c.last().unwrap());
+                            if bits_eq(ea, ec) {
+                                b.count("rrt_vs_star_end_bit_identical", 1);
+                            }
+                            if !crate::oracle::same_up_to_rounding(kit.spec(), ea, ec) {
                                 ctx.violate("rrt-star-ends-elsewhere", format!("RRT ends at {:?}, RRT* at {:?}", a.last(), c.last()), replay());
                             }
                             if let Ok(sp) = kit.build() {
